@@ -193,6 +193,7 @@ static void ep_map_sswum_impl(ep_t p, const uint8_t *bytes, size_t len,
 }
 
 static void ep_map_swift_impl(ep_t p, const uint8_t *random, size_t len) {
+	int inf = 0;
 	fp_t h[8], t1, t2, v, w, y, x1, x2, x3, d[3];
 	ctx_t *ctx = core_get();
 	bn_t k;
@@ -292,6 +293,7 @@ static void ep_map_swift_impl(ep_t p, const uint8_t *random, size_t len) {
 
 			if (fp_is_zero(d[0]) || fp_is_zero(d[1]) || fp_is_zero(d[2])) {
 				ep_set_infty(p);
+				inf = 1;
 			} else {
 				if (ep_curve_opt_a() == RLC_ONE) {
 					/* n2 = 4(16h0 + h7). */
@@ -379,6 +381,7 @@ static void ep_map_swift_impl(ep_t p, const uint8_t *random, size_t len) {
 
 				if (fp_is_zero(w)) {
 					ep_set_infty(p);
+					inf = 1;
 				} else {
 					fp_inv(w, w);
 					fp_mul(p->x, x1, w);
@@ -391,27 +394,31 @@ static void ep_map_swift_impl(ep_t p, const uint8_t *random, size_t len) {
 			}
 		}
 
-		ep_rhs(p->y, p->x);
-		ep_rhs(v, x2);
-		ep_rhs(w, x3);
+		/* In the exceptional cases the result is the point at infinity and
+		 * there are no candidates to select from. */
+		if (!inf) {
+			ep_rhs(p->y, p->x);
+			ep_rhs(v, x2);
+			ep_rhs(w, x3);
 
-		int c2 = fp_is_sqr(v);
-		int c3 = fp_is_sqr(w);
+			int c2 = fp_is_sqr(v);
+			int c3 = fp_is_sqr(w);
 
-		fp_copy_sec(p->y, v, c2);
-		fp_copy_sec(p->x, x2, c2);
-		fp_copy_sec(p->y, w, c3);
-		fp_copy_sec(p->x, x3, c3);
+			fp_copy_sec(p->y, v, c2);
+			fp_copy_sec(p->x, x2, c2);
+			fp_copy_sec(p->y, w, c3);
+			fp_copy_sec(p->x, x3, c3);
 
-		if (!fp_srt(p->y, p->y)) {
-			RLC_THROW(ERR_NO_VALID);
+			if (!fp_srt(p->y, p->y)) {
+				RLC_THROW(ERR_NO_VALID);
+			}
+			fp_neg(w, p->y);
+			fp_copy_sec(p->y, w, fp_is_even(p->y) ^ s);
+			fp_set_dig(p->z, 1);
+			p->coord = BASIC;
+			/* Multiply by cofactor. */
+			ep_mul_cof(p, p);
 		}
-		fp_neg(w, p->y);
-		fp_copy_sec(p->y, w, fp_is_even(p->y) ^ s);
-		fp_set_dig(p->z, 1);
-		p->coord = BASIC;
-		/* Multiply by cofactor. */
-		ep_mul_cof(p, p);
 	}
 	RLC_CATCH_ANY {
 		RLC_THROW(ERR_CAUGHT);
